@@ -1,4 +1,5 @@
 Require Import AT.Model.Base AT.Model.Rose AT.Model.Iter AT.Spec.IterSpec AT.Corr.Common.
+Require Import AT.Model.Heap AT.Model.Abs.
 Local Open Scope Z_scope.
 
 (** observed outputs of the five iterators: pre, post, level, groups, zigzag *)
@@ -36,9 +37,26 @@ Definition model05 (c : case06) : option obs06 :=
   let '(t, _, _, _, o) := c in model06 (t, None, None, None, o).
 Definition nodup_b (l : list id) : bool :=
   (fix go (l : list id) : bool := match l with [] => true | x :: r => negb (mem r x) && go r end) l.
+(** C05 also ties the abstraction function of Model/Abs.v to the code: the case
+    carries the parent / children links read from the live objects of the
+    start node's subtree (labels 0..n-1), and unfolding that link map below
+    the start node must give back the tree whose iteration orders the five
+    real iterators produced *)
+Definition hcell05 := (option id * list id)%type.
+Definition mk_heap05 (l : list hcell05) : heap :=
+  map (fun c => {| cparent := fst c; cchildren := snd c |}) l.
+Definition case05 := (case06 * option (list hcell05))%type.
+Definition abs_agrees (c : case05) : bool :=
+  let '((t, _, _, _, _), lk) := c in
+  match lk with
+  | None => true
+  | Some l => tree_eqb (tree_of (mk_heap05 l) (label t)) t
+  end.
 (** spec on the observation: equal to the orders, and every output duplicate free *)
-Definition corr_C05 (cs : list case06) : report :=
-  mk_report (map (fun c => (option_eqb obs06_eqb (model05 c) (snd c) && negb (option_eqb obs06_eqb None (snd c)),
+Definition corr_C05 (cs : list case05) : report :=
+  mk_report (map (fun c5 => let c := fst c5 in
+                           (option_eqb obs06_eqb (model05 c) (snd c) && negb (option_eqb obs06_eqb None (snd c))
+                            && abs_agrees c5,
                             option_eqb obs06_eqb (spec05 c) (snd c)
                             && match snd c with
                                | Some (a1, a2, a3, a4, a5) => nodup_b a1 && nodup_b a2 && nodup_b a3
